@@ -92,7 +92,7 @@ def run(ctx):
         lines.append("VR %s %d %s %s" % (bo, off, sig, hexb))
         lines.append("UP %s %d %d %s %s" % (bo, off, nf, sig, hexb))
         lines.append("UT %s %s %d %d %d %s" % (ty, bo, off, nf, r.randrange(8), hexb))
-    ok, impl, err = vlib.par_run_lines(exe, [], lines)
+    ok, impl, err = vlib.par_run_lines(exe, [], lines, robust=True)
     if not ok:
         ctx.tie_broken("wire harness crashed (a decoder aborted?)", err)
         return
@@ -106,12 +106,15 @@ def run(ctx):
     se_lines, se_index = [], {}
     for ci, (kind, ty, t, bo, off, nf, b, exp, explen) in enumerate(cases):
         for k in (1, 2):
-            st, n, toks = split_res(model[3 * ci + k])
-            if st == "ok" and toks:
-                key = (bo, off, toks)
-                if key not in se_index:
-                    se_index[key] = len(se_lines)
-                    se_lines.append("SE %s %d %s" % (bo, off, toks))
+            for outs in (model, impl):
+                st, n, toks = split_res(outs[3 * ci + k])
+                # the implementation's own value can be given to the specification directly when it has no
+                # multi-entry map (whose wire order is lost)
+                if st == "ok" and toks and (outs is model or not _has_multi_map(toks)):
+                    key = (bo, off, toks)
+                    if key not in se_index:
+                        se_index[key] = len(se_lines)
+                        se_lines.append("SE %s %d %s" % (bo, off, toks))
     ok, se_out, err = vlib.par_run_lines(drv, [], se_lines)
     if not ok:
         ctx.tie_broken("extracted specification crashed on decoded values", err)
@@ -150,6 +153,12 @@ def run(ctx):
                                                 ("typed decoder", s_ut, n_ut, v_ut, st_mt, n_mt, v_mt)):
                 if st == "ok":
                     if stm != "ok" or wg.canon(vm) != wg.canon(v) or nm != n:
+                        if not _has_multi_map(v):
+                            # no model witness needed: ask the specification about the implementation's own value
+                            sb, enc_ok = spec_of(bo, off, v)
+                            if sb != b[off:off + n] or not enc_ok:
+                                why = "%s accepted bytes that are not the encoding of the value it returned" % name
+                                continue
                         witness_missing = True
                         continue
                     sb, enc_ok = spec_of(bo, off, vm)
@@ -187,6 +196,14 @@ def run(ctx):
             ctx.disagreements_checked += 1
             ctx.tie_broken("correspondence: decoder models and implementation differ on a case the specification checks pass",
                            "%s\nimpl: %s\nmodel: %s" % (lines[3 * ci + 2], [vr_i, up_i, ut_i], [vr_m, up_m, ut_m]))
+
+
+def _has_multi_map(toks):
+    t = toks.split()
+    for i, x in enumerate(t):
+        if x == "e" and i + 3 < len(t) and t[i + 3].isdigit() and int(t[i + 3]) > 1:
+            return True
+    return False
 
 
 def replay(ctx, body):
